@@ -32,8 +32,8 @@ Print Assumptions c01_acked_survive_repaired_protocol.
 (* The side condition cannot be dropped: finding O-3b (5 nodes, 6 terms). *)
 Theorem c01_refuted_multi_round_truncate :
   exists w, run_code (init [1;2;3;4;5]) multi_round_trace = Some w /\
-            In (5, 2, v5) (cacked w) /\ nst (nodes w 5) = Leader /\ nterm (nodes w 5) = 6 /\
-            nlog (nodes w 5) = [x2] /\ acked_survive_b w [1;2;3;4;5] = false /\
+            In (4, 1, w4) (cacked w) /\ nst (nodes w 1) = Leader /\ nterm (nodes w 1) = 6 /\
+            nlog (nodes w 1) = [a1; b1; v5] /\ acked_survive_b w [1;2;3;4;5] = false /\
             consistent_run (init [1;2;3;4;5]) multi_round_trace = false.
 Proof. exact code_loses_acked_write. Qed.
 Print Assumptions c01_refuted_multi_round_truncate.
